@@ -839,7 +839,7 @@ def zeroext_simplifier(n, e):
 
     if e.op == "ZeroExt":
         # ZeroExt(A, ZeroExt(B, x)) ==> ZeroExt(A + B, x)
-        claripy.ZeroExt(n + e.args[0], e.args[1])
+        return claripy.ZeroExt(n + e.args[0], e.args[1])
     return None
 
 
